@@ -75,3 +75,22 @@ Theorem C12_flush_attempts_all : forall s,
   s_queued s' = [] /\ s_qids s' = [] /\ forall e, In e (s_queued s) -> mem (snd e) (s_active s') = true.
 Proof. exact flush_attempts_all. Qed.
 Print Assumptions C12_flush_attempts_all.
+
+(* a queue started over a non-empty storage (e.g. after a crash, C04): once the start-up load has
+   announced the stored messages, every one of them is in the timetable and the invariant behind
+   C12_not_forgotten holds, so it holds for every continuation of the restarted queue *)
+Theorem C12_restart_resumes : forall st nx, (forall i, st_get st i <> None -> i < nx) ->
+  let s := run (load_events st) (start st nx) in
+  Tinv s /\ s_store s = st /\ forall i, st_get st i <> None -> In i (qids_of (s_queued s)).
+Proof. exact restart_resumes. Qed.
+Print Assumptions C12_restart_resumes.
+
+Theorem C12_not_forgotten_after_restart : forall st nx es i, (forall j, st_get st j <> None -> j < nx) ->
+  let s := run es (run (load_events st) (start st nx)) in
+  st_get (s_store s) i <> None ->
+  In i (qids_of (s_queued s)) \/ In i (all_ids (s_tasks s)).
+Proof.
+  intros st nx es i H s Hs. destruct (restart_resumes st nx H) as [T _].
+  apply (t_tracked s (run_T es _ T)). exact Hs.
+Qed.
+Print Assumptions C12_not_forgotten_after_restart.
